@@ -170,7 +170,7 @@ def to4(R, t, bottom=(0.0, 0.0, 0.0, 1.0)):
 
 def gen_cases(ctx):
     r = ctx.rng
-    k = 25 if ctx.thorough else 1
+    k = 25 if ctx.thorough else 3
     # corpus: hand-made cases at the decision points
     yield {"kind": "member", "what": "reflection", "m": to4([[1.0, 0, 0], [0, 1.0, 0], [0, 0, -1.0]], [0.0, 0, 0]), "s": None}
     yield {"kind": "member", "what": "bottom", "m": to4(np.eye(3).tolist(), [1.0, 2.0, 3.0], (0.0, 0.0, 0.0, 2.0)), "s": None}
